@@ -13,6 +13,8 @@ notes = {
  "C10-d": "replacement with another definition added", "C11-d": "live second connection of the same domain", "C15-c": "per-path decision cap (engine ran out of memory before)",
  "C15-d": "added `Check_IncrementalRecord`", "C16-d": "re-prepare operation added", "C17-c": "older template in keep/drop mode",
  "C17-d": "added `Check_KeepOverTCP`", "C18-d": "SystemCertPool / CertPool.Clone modelled", "C19-d": "UnmarshalOptions modelled, merge flag checked",
+ "C12-b": "rendezvous semantics for select-send on unbuffered channels; 2 preemptions for UDP in the quick tier",
+ "C12-c": "real `Start()` on a stub UDP socket (`Check_StartUDP`)", "C12-d": "client that disconnects mid-message; hang reported as violation",
  "C20-c": "out-of-range counts added", "C20-d": "float, boolean and address fields in the rendered record",
 }
 rows = []
